@@ -128,9 +128,11 @@ def run(ctx, selftest=False):
                 plats.append(('mi300a', timing + ['-gpu', 'mi300a']))
         for pname, flags in plats:
             grp = []
+            grp.append({'mode': 'lazy', 'gomaxprocs': 16})          # reference of the group
+            grp.append({'mode': 'lazy', 'gomaxprocs': 1})
+            grp.append({'mode': 'lazynoise', 'gomaxprocs': 4, 'vseed': ctx.seed * 10 + 7})
             grp.append({'mode': 'free', 'gomaxprocs': 16})
             grp.append({'mode': 'free', 'gomaxprocs': 1})
-            grp.append({'mode': 'lazy', 'gomaxprocs': 16})
             grp.append({'mode': 'eager', 'gomaxprocs': 16})
             for k in range(4 if thorough else 1):
                 grp.append({'mode': 'noise', 'gomaxprocs': 2 + 6 * (k % 2), 'vseed': ctx.seed * 10 + k})
@@ -188,10 +190,13 @@ def run(ctx, selftest=False):
         if not d:
             continue
         sig = {'kind': 'observables_differ', 'mode': c['mode'], 'fields': ','.join(d)}
-        if c['timing'] and 'buffers' not in d and early_start_only(ro, o):
-            # same commands, same durations, same data; only the idle gap before a command is shorter than under the
-            # lazy schedule: the signal was handled while the engine still had its idle tick pending
-            sig = {'kind': 'commands_start_earlier_than_lazy_schedule'}
+        if c['timing'] and c['mode'] in ('free', 'eager', 'noise') and 'buffers' not in d:
+            # Same data; only simulated times / time-derived counters / the interleaving of commands of different queues
+            # differ from the lazy schedule: the simulated time at which an Enqueue takes effect depends on how far the
+            # engine had advanced when runAsync handled the signal (the known finding). Runs of the lazy class itself
+            # (different GOMAXPROCS, seeded host delays) are compared above with no such allowance: any other source of
+            # run-to-run variation shows up there.
+            sig = {'kind': 'timing_depends_on_host_schedule'}
         what = ('C05: %s on %s: run %s differs from reference %s in %s (end %s vs %s)' % (
             c['bench'], c['platform'], json.dumps({k: c[k] for k in ('mode', 'gomaxprocs')}),
             json.dumps({k: rc[k] for k in ('mode', 'gomaxprocs')}), d, o.get('end_time_ps'), ro.get('end_time_ps')))
